@@ -6,10 +6,10 @@ PROP = Prop(
                                      "Client.AddConsumeTopics", "consumer.assignPartitions"]),
             ("pkg/kgo/topics_and_partitions.go", ["mtmps.remove", "mtmps.onlyt", "mtmps.add", "mtmps.addt"])],
     rule="scenario = direct consumer of this tree, 40%: ConsumeTopics(1-3 names, some not created yet, internal topics named explicitly) + ConsumePartitions(pinned partitions, some not existing yet), "
-         "60%: ConsumeRegex with 1-2 include patterns and 0-2 exclude patterns, MetadataMinAge 50 ms / MaxAge 250 ms, against a real kfake; a script of 14-27 steps: create a topic "
+         "60%: ConsumeRegex with 1-2 include patterns and 0-2 exclude patterns, MetadataMinAge 50 ms / MaxAge 250 ms, against a real kfake; a script of 16-29 steps: create a topic "
          "(10 names: matching, non-matching, two internal topics __consumer_offsets/__transaction_state and an internal one with an ordinary name, an internal-looking non-internal one), "
          "grow partitions, delete a topic, AddConsumeTopics, AddConsumePartitions, RemoveConsumePartitions (1-2 partitions, existing or not), PurgeTopicsFromConsuming, producer round "
-         "(one identifiable record to every partition of every existing topic), sleep; 1-3 polls after every step; quiet end: two producer rounds, polls until 4 empty ones; "
+         "(one identifiable record to every partition of every existing topic), sleep; 1-3 polls after every step; quiet end: producer round, 3 s of polls, producer round, at least 3 s of polls and until 4 empty ones; "
          "events: configuration, every call with arguments, every acknowledged and every returned record, metadata responses delivered to the consumer (refresh marks); "
          "non-trivial = at least 5 returned records and at least 3 of the calls / growth / deletion steps",
     trusted_base=["history monitor Model.Select with the selection rule written from the property text and the documentation of the calls",
@@ -17,7 +17,7 @@ PROP = Prop(
                   "ground truth = the harness's own call log and producer acknowledgements; refresh marks from the wire (Metadata responses on connections of the consumer's client id)",
                   "harness/sim (synctest bubble)", "Lean compiler/runtime for the driver"],
     assumptions=["all calls, producer rounds and polls of a scenario run in one goroutine (program order = event order); topics are never re-created after deletion",
-                 "coverage is judged after the script ended, two further producer rounds and four consecutive empty polls of 300 ms (virtual), for partitions that exist and are selected at the end",
+                 "coverage is judged after the script ended, two further producer rounds, six seconds (virtual) of polls and four consecutive empty polls, for partitions that exist and are selected at the end",
                  "every partition is consumed from its start (ConsumeTopics default, AtStart for pinned partitions), so a re-selected partition re-delivers its records (not a C39 matter)",
                  "regex selection: a purged topic that still exists is re-selected at the next metadata refresh (documented on PurgeTopicsFromClient); a record of it before that refresh is refused",
                  "named selection: a whole topic whose existing partitions were all removed is no longer selected (documented on RemoveConsumePartitions)"],
